@@ -167,6 +167,13 @@ func refKey(kind string, o Occ) string {
 		// cause is that it was resolved against the macro's own scope
 		return "misbound-ref/" + o.C
 	}
+	if q, _ := splitQual(o.N); q != "" {
+		k := kind + "/qualified"
+		if o.Q {
+			k += "/in-brackets"
+		}
+		return k
+	}
 	if specificCtx[o.C] {
 		return kind + "/" + o.C
 	}
@@ -211,6 +218,14 @@ func diagnose(c Case, minLeaves [][]leaf, generated map[string]string) []anomaly
 			}
 		}
 	}
+	splitBinder := map[int]bool{}
+	for id, ns := range binderNew {
+		for _, n := range ns[1:] {
+			if n.name != ns[0].name {
+				splitBinder[id] = true
+			}
+		}
+	}
 	tmplNew := map[int]string{}
 	for fi, f := range c.Files {
 		ml := symLeaves(minLeaves[fi])
@@ -232,8 +247,8 @@ func diagnose(c Case, minLeaves [][]leaf, generated map[string]string) []anomaly
 				tmplNew[o.B] = nw
 			case "ref":
 				ns := binderNew[o.B]
-				if len(ns) == 0 {
-					continue
+				if len(ns) == 0 || splitBinder[o.B] {
+					continue // nothing to compare with / already reported as split-binder
 				}
 				want := ns[len(ns)-1].name
 				oq, on := splitQual(o.N)
@@ -266,7 +281,7 @@ func diagnose(c Case, minLeaves [][]leaf, generated map[string]string) []anomaly
 		}
 	}
 	for _, sr := range c.ClientRefs {
-		if exportAnomaly[sr.B] {
+		if exportAnomaly[sr.B] || splitBinder[sr.B] {
 			continue // already reported as stale-ref/export-form
 		}
 		for _, n := range binderNew[sr.B] {
@@ -298,7 +313,13 @@ func diagnose(c Case, minLeaves [][]leaf, generated map[string]string) []anomaly
 		}
 		return out[i].key < out[j].key
 	})
-	return out
+	var ded []anomaly
+	for i, a := range out {
+		if i == 0 || a.key != out[i-1].key {
+			ded = append(ded, a)
+		}
+	}
+	return ded
 }
 
 // anomalyRank orders anomalies so that the one closest to a root cause names
